@@ -902,6 +902,9 @@ def _call_of(st, is_async):
         v, form = st.value, 'return'
     elif isinstance(st, ast.AugAssign):
         v, form = st.value, 'aug'
+    elif isinstance(st, ast.Raise) and st.exc is not None and \
+            st.cause is None:
+        v, form = st.exc, 'raise'
     else:
         return None, None
     if isinstance(v, ast.Await):
@@ -1173,6 +1176,9 @@ def _inline_at(caller, blk, i, h, call, form, bound_self, uid,
                     target=copy.deepcopy(st.target), op=st.op,
                     value=val if val is not None
                     else ast.Constant(value=None))]
+            if form == 'raise':
+                return [ast.Raise(exc=val if val is not None
+                                  else ast.Constant(value=None), cause=None)]
             if val is None or all(isinstance(x, _PURE)
                                   for x in ast.walk(val)):
                 return [ast.Pass()]
@@ -1201,6 +1207,10 @@ def _inline_at(caller, blk, i, h, call, form, bound_self, uid,
         out.append(ast.AugAssign(
             target=st.target, op=st.op,
             value=ret if ret is not None else ast.Constant(value=None)))
+    elif form == 'raise':
+        out.append(ast.Raise(
+            exc=ret if ret is not None else ast.Constant(value=None),
+            cause=None))
     else:
         out.append(ast.Return(value=ret))
     if not out:
@@ -1277,9 +1287,38 @@ def _hoist_nested_call(blk, i, is_target, uid) -> bool:
     return True
 
 
+def portable_new_methods(tree: ast.Module, modname: str, known: Set[str],
+                         taken: Set[str]):
+    """new methods that other modules can call on an object of the class
+    and that can be copied there: the name is borne by no baseline function
+    anywhere (`taken`), the body mentions nothing but `self`, its own
+    parameters / locals and builtins"""
+    import builtins
+    out = []
+    for q, (h, hcls, _c) in def_table(tree, modname).items():
+        if hcls is None or q in known or h.name in taken or \
+                h.name.startswith('__'):
+            continue
+        if h.decorator_list or not h.args.args:
+            continue
+        if _inlinable(h) != 'tail':
+            continue
+        a = h.args
+        local = {x.arg for x in a.posonlyargs + a.args + a.kwonlyargs}
+        local |= {x.id for x in ast.walk(h) if isinstance(x, ast.Name)
+                  and isinstance(x.ctx, ast.Store)}
+        free = {x.id for st_ in h.body for x in ast.walk(st_)
+                if isinstance(x, ast.Name)
+                and isinstance(x.ctx, ast.Load)} - local
+        if all(hasattr(builtins, n) for n in free):
+            out.append((h, hcls))
+    return out
+
+
 def undo_extractions(tree: ast.Module, modname: str, known: Set[str],
                      other_sources=None, base_funcs=None,
-                     known_nested: Optional[Set[str]] = None) -> int:
+                     known_nested: Optional[Set[str]] = None,
+                     foreign=()) -> int:
     """Inline functions that are not in `known` (the baseline's function
     table of this module) at their call sites in this module."""
     defs = def_table(tree, modname)
@@ -1300,6 +1339,11 @@ def undo_extractions(tree: ast.Module, modname: str, known: Set[str],
             if q not in known_nested and q.rsplit('.', 1)[0] in known:
                 new[q] = (h, None, blk)
                 enclosing[id(h)] = outer
+    foreign_ids = set()
+    for k_, (h_, hc_) in enumerate(foreign):
+        if not any(v[0] is h_ for v in defs.values()):
+            new[f'<foreign>.{k_}.{h_.name}'] = (h_, hc_, None)
+            foreign_ids.add(id(h_))
     if not new:
         return done
     uid = 0
@@ -1332,6 +1376,9 @@ def undo_extractions(tree: ast.Module, modname: str, known: Set[str],
             1 for qq in def_table(tree, modname)
             if qq.rsplit('.', 1)[-1] == h.name) == 1 and not any(
             kq.rsplit('.', 1)[-1] == h.name for kq in known)
+        if id(h) in foreign_ids:
+            unique = not any(qq.rsplit('.', 1)[-1] == h.name
+                             for qq in def_table(tree, modname))
 
         def _is_h(c, h=h, hcls=hcls, unique=unique):
             f = c.func
@@ -1409,7 +1456,7 @@ def undo_extractions(tree: ast.Module, modname: str, known: Set[str],
             uid += 1
             verbatim = False
             if mode != 'tail':
-                if form == 'return' or (
+                if (form == 'return' and mode in ('any', 'anyplain')) or (
                         mode == 'anyplain' and form == 'expr'
                         and _in_tail_position(inner, st)):
                     verbatim = True
@@ -1421,8 +1468,10 @@ def undo_extractions(tree: ast.Module, modname: str, known: Set[str],
                 renumber(caller)
             else:
                 ok_all = False
-        if ok_all and other == 0 and (id(h) in enclosing or not (
-                other_sources and any(h.name in s for s in other_sources))):
+        if container is not None and ok_all and other == 0 and (
+                id(h) in enclosing or not (
+                    other_sources and any(h.name in s
+                                          for s in other_sources))):
             try:
                 container.remove(h)
                 if not container:
